@@ -89,7 +89,14 @@ where
             };
             let i = geti(v, "i") as usize;
             let msg = lib.msg::<C>(&v["msg"]);
-            let r = sh[i - 1].sign(scheme_of(gets(v, "scheme")), &msg);
+            let share = if getb(v, "zero") {
+                let mut b = vec![i as u8];
+                b.extend_from_slice(&[0u8; 32]);
+                SecretKeyShare::<C>::try_from(b.as_slice()).expect("share container")
+            } else {
+                sh[i - 1].clone()
+            };
+            let r = share.sign(scheme_of(gets(v, "scheme")), &msg);
             let got = if r.is_ok() { "Ok" } else { "Err" };
             if got != want {
                 return Outcome::fail(json!({"res": got}), format!("spec predicts {want}, library returned {got}"));
